@@ -7,10 +7,12 @@ Contract of a window search with true value v, window (a, b), result r:
 The node under test is node 0 of a one-level abstract game; its children's true values v_i are free integers.
 Nested calls of alpha_beta / quiescence return a fresh r with C(v_child, a, b, r) assumed, and havoc the statistics
 (nodes, seldepth) and the killer table, which is modelled as arbitrary (UniformRows)."""
+import os
 import z3
 
 from mirsym.executor import State, NOT_HANDLED, DIVERGE
 from mirsym.values import *
+from mirsym.models import opt_is_some
 from mirsym.models import some, NONE
 from . import absgame as A
 from . import boardsym as B
@@ -59,9 +61,10 @@ def contract(v, a, b, r):
 
 
 class StepEnv:
-    def __init__(self, run, nmoves, kind, ply_concrete=None, abortable=False, limits=None, cache_entry=False):
+    def __init__(self, run, nmoves, kind, ply_concrete=None, abortable=False, limits=None, cache_entry=False, cut_contract='weak'):
         """kind: 'alpha_beta' | 'quiescence' | 'root'"""
         self.run, self.kind, self.n = run, kind, nmoves
+        self.timer_field = run.prog.field_index('search::limits::SearchLimits', 'time_management_timer')
         A.INT_MODE[0] = True
         self.G = A.Game(max(nmoves, 1), 1, ext_plies=(), qplies=0)
         if nmoves == 0:
@@ -79,6 +82,7 @@ class StepEnv:
         self.q = z3.Int('q_node')           # true quiescence value of the node itself (used when alpha_beta drops into quiescence)
         self.calls = []
         self.abortable = abortable
+        self.cut_contract = cut_contract      # 'strong': every cut clears the running flag; 'weak': a clock-budget cut may leave it set
         self.limits = limits
         self.ex = run.executor()
         self.env = {'cache': False}
@@ -156,9 +160,23 @@ class StepEnv:
                     ab = z3.Bool('aborted_%d' % self.rctr)
                     self.calls[-1]['aborted'] = ab
                     ex.assume(z3.Implies(z3.And(ok_window, z3.Not(ab)), contract(v, A_, B_, r)))
+                    # what a cut guarantees is no more than what limits_exceeded itself establishes: stop, node budget and
+                    # movetime clear the running flag; the clock budget of a clocked search does NOT - the flag stays set, but
+                    # the clock has been seen at or beyond the budget and never runs backwards (so a correct re-check fires again)
+                    clears = z3.Bool('aborted_%d_clears_flag' % self.rctr)
+                    by_clock = z3.And(ab, z3.Not(clears))
+                    timer = S[3][self.timer_field]
+                    tsome = opt_is_some(timer)
+                    tval = timer.pay[1][0] if 1 in timer.pay and timer.pay[1] else None
+                    any_clock = z3.Or(*[zb(opt_is_some(S[3][self.run.prog.field_index('search::limits::SearchLimits', f)]))
+                                        for f in ('white_time', 'black_time', 'white_increment', 'black_increment')])
+                    ex.assume(z3.Implies(by_clock, z3.And(zb(tsome), any_clock)) if (tval is not None and self.cut_contract == 'weak') else z3.Not(by_clock))
+                    if tval is not None:
+                        self.env.setdefault('clock_floor', []).append((z3.And(by_clock, zb(tsome)), bv(tval)))
+                    self.calls[-1]['by_clock'] = by_clock
                     cell = S[0]
                     cur = ctx.deref(cell)
-                    ctx.write(cell, ('atomic', b_and(cur[1], b_not(ab))))
+                    ctx.write(cell, ('atomic', b_and(cur[1], b_not(z3.And(ab, clears)))))
                     g = ctx.ex.load(ctx.st, ('G', 'aborted_below'), ())
                     ctx.ex.store_to(ctx.st, ('G', 'aborted_below'), (), b_or(g, ab))
                     self._havoc(ctx, sp)
@@ -185,3 +203,68 @@ class StepEnv:
             if it.kind == 'fn' and n.endswith('::' + method) and n.startswith('search::<impl'):
                 return n
         raise Unsupported('search method %s not found in the MIR' % method)
+
+
+# ------------------------------------------------------------------ what a cut guarantees (shared by C09, C13, C14)
+
+def sym_limits():
+    """SearchLimits with every field an arbitrary Option"""
+    def opt(tag, w):
+        s = z3.Bool('lim_%s_some' % tag)
+        return Enum(z3.If(s, z3.BitVecVal(1, 64), z3.BitVecVal(0, 64)), {1: (z3.BitVec('lim_%s' % tag, w),), 0: ()})
+    return (opt('depth', 8), opt('nodes', 64), opt('movetime', 128), opt('wtime', 128), opt('btime', 128), opt('winc', 128),
+            opt('binc', 128), opt('timer', 128))
+
+
+
+CLOCK_FIELDS = ('white_time', 'black_time', 'white_increment', 'black_increment')
+
+
+def clock_seen(run, S, reads, nested=()):
+    """a clock reading at or beyond a budget of this search was made: movetime, or - for a clocked search - the time-management
+    budget.  Any later reading is at least as large (monotone clock), so a correct re-check answers positively again."""
+    fi = lambda f: run.prog.field_index('search::limits::SearchLimits', f)
+    any_clock = z3.Or(*[zb(opt_is_some(S[3][fi(f)])) for f in CLOCK_FIELDS])
+    out = list(nested)
+    for fld, extra in (('time_management_timer', any_clock), ('movetime', z3.BoolVal(True))):
+        o = S[3][fi(fld)]
+        val = o.pay[1][0] if 1 in o.pay and o.pay[1] else None
+        if val is not None:
+            out += [z3.And(zb(g), extra, zb(opt_is_some(o)), z3.UGE(t, bv(val))) for g, t in reads]
+    return z3.Or(*out) if out else z3.BoolVal(False)
+
+
+def cut_kind(run, record=True):
+    """LIM-KIND: what does a positive answer of the real limits_exceeded guarantee?  'strong' = the running flag is cleared
+    on every positive answer; 'weak' = it may stay set, but then a clock value was given, a budget exists and a clock
+    reading at or beyond it was made (the clock never runs backwards, so a correct re-check fires again).  The contract
+    assumed for nested searches is exactly the one established here - never stronger.  None = neither could be shown."""
+    env = StepEnv(run, 1, 'alpha_beta', ply_concrete=None, abortable=True, limits=sym_limits())
+    ex = env.ex
+    st = State()
+    sp = ex.alloc(st, env.search_value(st))
+    r = ex.call(env.item('limits_exceeded'), [sp, ('instant',)], ['&search::Search', 'std::time::Instant'], 'bool', st, 'harness')
+    run.absorb(ex)
+    res, st2 = r
+    S = ex.load(st2, sp.root, sp.path)
+    flag = zb(ex.load(st2, S[0].root, S[0].path)[1])
+    base = ex.pre + [zb(st2.guard), zb(res)]
+    q1 = run.decide('LIM-KIND/positive-answer-clears-the-flag', base + [flag], kind='smt',
+                    note='limits_exceeded() == true with the running flag still set: unsat => strong cut contract')
+    run.queries.pop()          # a classification, not an obligation: either answer is fine, it selects the contract
+    if record:
+        run.extra['LIM-KIND positive answer with the running flag still set'] = q1.verdict
+    if q1.verdict == 'unsat':
+        return 'strong'
+    if q1.verdict != 'sat':
+        return None
+    seen = clock_seen(run, S, env.env.get('clock_reads', []))
+    q2 = run.decide('LIM-KIND/positive-answer-without-clearing-is-a-clock-budget-cut', base + [flag, z3.Not(seen)], kind='smt',
+                    note='limits_exceeded() == true with the flag set => the clock was read at or beyond movetime or (clocked search) the time budget')
+    if q2.verdict == 'sat' and os.environ.get('VERIF_DEBUG'):
+        print('LIM-KIND model:', q2.model)
+    if not record:
+        run.queries.pop()
+    return 'weak' if q2.verdict == 'unsat' else None
+
+
